@@ -36,7 +36,7 @@ Section TxSeqProofs.
     - inversion Hnd as [|? ? Hnd1 Hnd2]; subst.
       rewrite map_cons in *. cbn [tx_resign_free_from] in Hg. apply andb_prop in Hg. destruct Hg as (Hg1 & Hg2).
       cbn [spec_sign_from lib_sign_tx_from].
-      destruct Hsh as (Hs1 & Hs2 & Hs3 & Hs4).
+      destruct Hsh as (Hs1 & Hs2 & Hs3 & Hs4 & Hs5).
       rewrite Hs2, Hsig.
       destruct (sign_input_cases (mki i) (si_keys s) acc r f signers Hnd1 Hg1) as [(E & Es)|(Er & E)]; rewrite E.
       + destruct (call_raises (si_keys s) f signers) eqn:Er.
@@ -63,7 +63,7 @@ Section TxSeqProofs.
       rewrite map_cons in *.
       destruct t as [|t]; cbn [spec_sign_at lib_sign_tx_at]; cbn [tx_resign_free_at] in Hg.
       + rewrite Nat.add_0_r, Nat.eqb_refl.
-        destruct Hsh as (Hs1 & Hs2 & Hs3 & Hs4).
+        destruct Hsh as (Hs1 & Hs2 & Hs3 & Hs4 & Hs5).
         rewrite Hs2, Hsig.
         destruct (sign_input_cases (mki i) (si_keys s) acc r f signers Hnd1 Hg) as [(E & Es)|(Er & E)]; rewrite E.
         * destruct (call_raises (si_keys s) f signers) eqn:Er; simpl.
@@ -91,7 +91,7 @@ Section TxSeqProofs.
       destruct (negb (si_hash_ok x)); [simpl; constructor; assumption|].
       pose proof (verify_call_step (svi i) (mki i) (mk_valid i) (si_keys s) acc (si_m x) Hd1) as Hv.
       unfold lib_icall in Hv.
-      destruct Hsh as (Hs1 & Hs2 & Hs3 & Hs4).
+      destruct Hsh as (Hs1 & Hs2 & Hs3 & Hs4 & Hs5).
       rewrite Hs2, Hsig.
       destruct (lib_verify_input_run (svi i) (si_keys s) (map (own_sig (mki i)) (signed_listed (si_keys s) acc))
                   (si_m x)) as [ok l]. simpl in Hv. subst l.
@@ -121,7 +121,7 @@ Section TxSeqProofs.
   Proof.
     induction 1 as [i|i s sh acc accs x ins Hsh Hsig Htail IH]; [reflexivity|].
     cbn [lib_tx_verify_run_from tx_verdict].
-    destruct Hsh as (Hs1 & Hs2 & Hs3 & Hs4). rewrite Hs4.
+    destruct Hsh as (Hs1 & Hs2 & Hs3 & Hs4 & Hs5). rewrite Hs4.
     destruct (si_hash_ok s); [|reflexivity]. cbn [negb andb].
     pose proof (verdict_of_count (svi i) (mki i) (mk_valid i) (si_keys s) acc (si_m s)) as Hv.
     rewrite Hs2, Hs3, Hsig.
@@ -181,9 +181,9 @@ Section TxSeqProofs.
 End TxSeqProofs.
 
 (* ---------- the machine of the correspondence driver performs exactly these calls ---------- *)
-Lemma run_op_sign_is_tcall st target r f signers :
-  cs_ins (fst (run_op st (OSign target r f signers)))
-  = lib_tcall (fun i => c_sv (epoch_at (cs_epochs st) i)) (fun i => c_mk (epoch_at (cs_epochs st) i))
+Lemma run_op_sign_is_tcall fixed st target r f signers :
+  cs_ins (fst (run_op fixed st (OSign target r f signers)))
+  = lib_tcall (c_svi (cs_epochs st) (cs_ins st)) (fun i => c_mk (epoch_at (cs_epochs st) i))
               (cs_ins st) (TSign target r f signers).
 Proof.
   unfold run_op, lib_tcall.
@@ -191,14 +191,14 @@ Proof.
   reflexivity.
 Qed.
 
-Lemma run_op_verify_is_tcall st :
-  cs_ins (fst (run_op st OVerify))
-  = lib_tcall (fun i => c_sv (epoch_at (cs_epochs st) i)) (fun i => c_mk (epoch_at (cs_epochs st) i))
+Lemma run_op_verify_is_tcall fixed st :
+  cs_ins (fst (run_op fixed st OVerify))
+  = lib_tcall (c_svi (cs_epochs st) (cs_ins st)) (fun i => c_mk (epoch_at (cs_epochs st) i))
               (cs_ins st) TVerify /\
-  (exists v m, snd (run_op st OVerify)
-     = ObsVerify (fst (lib_tx_verify_run (fun i => c_sv (epoch_at (cs_epochs st) i)) (cs_ins st))) v m).
+  (exists v m, snd (run_op fixed st OVerify)
+     = ObsVerify (fst (lib_tx_verify_run (c_svi (cs_epochs st) (cs_ins st)) (cs_ins st))) v m).
 Proof.
   unfold run_op, lib_tcall.
-  destruct (lib_tx_verify_run (fun i => c_sv (epoch_at (cs_epochs st) i)) (cs_ins st)) as [b ins'].
+  destruct (lib_tx_verify_run (c_svi (cs_epochs st) (cs_ins st)) (cs_ins st)) as [b ins'].
   split; [reflexivity|]. eexists. eexists. reflexivity.
 Qed.
